@@ -28,6 +28,14 @@ Definition w_quoted : str := [102; 111; 17] ++ w_report ++ [97; 114; 13].
 Lemma witness_quoted : results_of (one_prompt w_quoted) = [RText [102; 111; 97; 114]].
 Proof. vm_compute. reflexivity. Qed.
 
+(* 'one' LF 'two' LF 'three' LF written at once, three prompts: the ControlM that the
+   C-j handler feeds goes to the FRONT of the queue, so each line ends where its LF is *)
+Definition w_lf : str := [111; 110; 101; 10; 116; 119; 111; 10; 116; 104; 114; 101; 101; 10].
+Lemma witness_lf :
+  results_of [LWrite w_lf; LStart; LRead 1024; LExit; LStart; LExit; LStart; LExit]
+  = [RText [111; 110; 101]; RText [116; 119; 111]; RText [116; 104; 114; 101; 101]].
+Proof. vm_compute. reflexivity. Qed.
+
 (* ---------------------------------------------------------------------- *)
 (* The hypotheses of C17_script are satisfiable: a one-key-per-binding
    keyboard (Enter accepts the typed text, any other key is inserted). *)
@@ -42,17 +50,26 @@ Definition t_eff (b : bool) (ks : list kp) (e : str) : str * option str :=
   if b then (e, Some e) else (e ++ concat (map snd ks), None).
 Definition t_cpr_lookup (e : str) : option bool := None.
 
-Lemma tiny_cpr_silent : cpr_silent t_eff t_cpr_lookup.
+Definition t_feeds (b : bool) (ks : list kp) (e : str) : list kp := [].
+
+Lemma tiny_cpr_silent : cpr_silent t_eff t_cpr_lookup t_feeds.
 Proof. intros e b H. discriminate H. Qed.
 
-Lemma tiny_no_pushback : no_pushback t_lookup t_lookup t_waits t_eff (fun _ => false).
+Lemma tiny_no_pushback : no_pushback t_lookup t_lookup t_waits t_eff (fun _ => false) t_cpr_lookup t_feeds.
 Proof.
-  intros c it PH P0 K.
+  intros c it PH P0 K ND.
   destruct K as [K|K]; [|discriminate K].
-  destruct it as [k|]; unfold send; rewrite K; cbn [length app].
-  - cbn [loop kbuf set_kbuf cph est]. rewrite PH. cbn [negb andb t_waits t_lookup].
-    cbn [pb set_kbuf call]. exact P0.
-  - cbn [loop]. rewrite K. exact P0.
+  assert (X : forall c1 : core str bool str, pb c1 = [] -> cph c1 <> CRun str -> pb (deliver_d t_lookup t_lookup t_waits t_eff (fun _ => false) t_cpr_lookup t_feeds it c) = pb c1 -> True) by auto.
+  clear X. revert ND. unfold deliver_d.
+  destruct it as [k|]; cbn [deliver].
+  - destruct (is_cpr k).
+    + unfold handle_cpr. cbn [t_cpr_lookup]. rewrite PH. rewrite P0. cbn [drain]. intros ND. exfalso. apply ND. exact PH.
+    + unfold send. rewrite K. cbn [length app loop kbuf set_kbuf cph est]. rewrite PH. cbn [negb andb t_waits t_lookup].
+      unfold call; cbn [kbuf set_kbuf cph pb est t_feeds app]. rewrite PH, P0.
+      destruct (match fst k with KKey i => (i =? 15)%Z | KChar _ => false end); cbn [t_eff snd fst]; intros ND.
+      * reflexivity.
+      * cbn [drain]. reflexivity.
+  - unfold send. cbn [loop]. rewrite K, PH, P0. cbn [drain]. intros ND. exfalso. apply ND. exact PH.
 Qed.
 
 (* ---------------------------------------------------------------------- *)
@@ -98,13 +115,13 @@ Qed.
 (* the report binding of the real table: in every state of the truth tables a
    report is delivered to the handler of bindings/cpr.py, which neither ends
    the prompt nor touches the edit state *)
-Lemma emacs_cpr_silent : cpr_silent e_eff e_cpr_lookup.
+Lemma emacs_cpr_silent : cpr_silent e_eff e_cpr_lookup e_feeds.
 Proof.
   intros e b H ks e'.
   assert (X : snd b = 19).
   { destruct e as [t cu q u x]. destruct t as [|t0 t]; destruct cu as [|cu]; destruct q; destruct x;
       vm_compute in H; inversion H; reflexivity. }
-  unfold e_eff. rewrite X. reflexivity.
+  unfold e_eff, e_feeds. rewrite X. split; reflexivity.
 Qed.
 
 Lemma emacs_cpr_bound : forall e, exists b, e_cpr_lookup e = Some b /\ e_is_cprh b = true.
